@@ -47,7 +47,8 @@ class OutOfBound(BaseException):
 
 
 class PathTimeout(BaseException):
-    """The code under test did not finish within the per-path wall-clock limit
+    """The code under test did not finish within the per-path CPU-time limit (ITIMER_PROF: process CPU
+    time, so a loaded machine does not produce spurious time-outs)
     (harnesses whose property includes termination turn this into a violation
     that the replay must confirm)."""
 
